@@ -4,7 +4,7 @@ from fractions import Fraction
 import numpy as np
 from ..env import Fxp, parse_list, tok_list, lims, ROUNDS, OVFS, codes_of, fmt_of, tok_bool, exc_token, to_float
 from .. import gen as G
-from ..arith import mk
+from ..arith import mk, hist_of, empty_via_history
 from . import base
 
 TRUSTED_BASE = base.TRUSTED_BASE
@@ -61,7 +61,8 @@ def convert(route, src, sd, nd, fd, r, o):
         return Fxp(src, sd, nd, fd, **cfg)
     if route == 'ctor_dtype':
         return Fxp(src, dtype=dtype_str(sd, nd, fd), **cfg)
-    D = Fxp(np.zeros(shape, dtype=int) if shape != () else None, sd, nd, fd, **cfg)
+    # the destination is itself an object with a past: built directly or reached by in-place format changes (content-determined)
+    D = empty_via_history(hist_of(route, nd, fd, int(sd), len(shape), src.n_word), np.zeros(shape, dtype=int) if shape != () else None, sd, nd, fd, **cfg)
     if route == 'like_kw':
         return Fxp(src, like=D)
     if route == 'like_m':
